@@ -337,7 +337,7 @@ class Labware:
         self._labels.append(label)
         return
 
-    def condense_log(self, n: int, label: Optional[str] = "last") -> None:
+    def condense_log(self, n: int, label: Optional[str] = "last", *, literal: bool = False) -> None:
         """Condense the last n log entries.
 
         Parameters
@@ -346,13 +346,15 @@ class Labware:
             Number of log entries to condense
         label : str
             'first', 'last' or label of the condensed entry (default: label of the last entry in the condensate)
+        literal : bool
+            If True, `label` is always used as it is (an operation may be labelled "first" or "last").
         """
         if n < 1:
             # nothing to condense (slicing with [:-0] would drop the entire history)
             return
-        if label == "first":
+        if not literal and label == "first":
             label = self._labels[len(self._labels) - n]
-        if label == "last":
+        elif not literal and label == "last":
             label = self._labels[-1]
         state = self._history[-1]
         # cut away the history
